@@ -50,6 +50,14 @@ CLAIMED = {
         "source by the mini translator; correspondence on boundaries + dense tick prefix",
         "float division in TimeTicks.pythonize is modelled as exact (argued in DESIGN.md, sampled); x690 Integer codec modelled",
     ),
+    "C18": (
+        "proof: exit of a reconfigure block restores config and message-processing instance exactly (normal, exceptional, "
+        "inner configure failing, any nesting depth, permanent configure inside), whole programs without a top-level configure "
+        "end where they started, requests inside see exactly the overrides, configure sets exactly the named fields, unknown "
+        "settings refused without change (generated field list), family switch -> protocol version (generated tables); tied by "
+        "random nested programs run on a real client with every seam call observed",
+        "object identities compared up to renaming; requests racing with a block entered by another task are outside the property",
+    ),
 }
 
 
